@@ -200,6 +200,96 @@ Proof.
   apply Rabs_le. lra.
 Qed.
 
+(** ** the same with a weaker hypothesis that takes the shortcut pass into account.
+       A vertex in the interior of a flat face is a local maximum of the graph for the
+       direction opposite to the face normal although it is the global MINIMUM; the shortcut
+       pass (argmax / argmin of the coordinates) moves away from it first.  So it suffices that
+       local maxima which are at least as good as every shortcut vertex (up to the threshold)
+       are global up to [delta]. *)
+Definition LocalMaxGlobalS (d : V3R) (vs : list V3R) (conn : list (nat * list nat)) (shortcuts : list nat) (delta : R) : Prop :=
+  forall i vi, local_max d vs conn i -> nth_error vs i = Some vi ->
+    (forall j vj, In j shortcuts -> nth_error vs j = Some vj -> dot d vj <= dot d vi + @EPSILON10 R ROps) ->
+    forall v, In v vs -> dot d v <= dot d vi + delta.
+
+Lemma LocalMaxGlobal_S d vs conn shortcuts delta :
+  LocalMaxGlobal d vs conn delta -> LocalMaxGlobalS d vs conn shortcuts delta.
+Proof. intros H i vi Hl Hi _ v Hv. exact (H i vi Hl Hi v Hv). Qed.
+
+Lemma scan_mono_bp (d : V3R) vs : forall l best bp moved b bp' m,
+  scan d vs best bp moved l = Some (b, bp', m) -> bp <= bp'.
+Proof.
+  induction l as [|j l IH]; intros best bp moved b bp' m H.
+  - cbn in H. injection H as _ <- _. lra.
+  - rewrite scan_cons in H.
+    destruct (nth_error vs j) as [vj|] eqn:Ej; [|discriminate].
+    case_ltb (bp + @EPSILON10 R ROps) (dot d vj) Ht.
+    + apply IH in H. pose proof EPSILON10_R_pos. lra.
+    + eapply IH; eauto.
+Qed.
+
+(** after a pass, no listed vertex is better than the carried projection by more than the threshold *)
+Lemma scan_ge (d : V3R) vs : forall l best bp moved b bp' m,
+  scan d vs best bp moved l = Some (b, bp', m) ->
+  forall j vj, In j l -> nth_error vs j = Some vj -> dot d vj <= bp' + @EPSILON10 R ROps.
+Proof.
+  induction l as [|j l IH]; intros best bp moved b bp' m H j' vj' Hin Hj'; [destruct Hin|].
+  rewrite scan_cons in H.
+  destruct (nth_error vs j) as [vj|] eqn:Ej; [|discriminate].
+  pose proof EPSILON10_R_pos as He.
+  case_ltb (bp + @EPSILON10 R ROps) (dot d vj) Ht.
+  - destruct Hin as [<-|Hin].
+    + assert (vj' = vj) by congruence. subst. apply scan_mono_bp in H. lra.
+    + eapply IH; eauto.
+  - destruct Hin as [<-|Hin].
+    + assert (vj' = vj) by congruence. subst. apply scan_mono_bp in H. lra.
+    + eapply IH; eauto.
+Qed.
+
+Lemma climb_mono (d : V3R) vs conn : forall fuel best bp i,
+  climb fuel d vs conn best bp = ClimbOk i -> inv d vs best bp ->
+  exists vi, nth_error vs i = Some vi /\ bp <= dot d vi.
+Proof.
+  induction fuel as [|fuel IH]; intros best bp i H Hi; cbn [climb] in H; [discriminate|].
+  destruct (lookup best conn) as [nb|] eqn:El; [|discriminate].
+  destruct (scan d vs best bp false nb) as [[[b bp'] [|]]|] eqn:Es; [|idtac|discriminate].
+  - destruct (scan_inv _ _ _ _ _ _ _ _ _ Es Hi) as (Hi' & Hle & _).
+    destruct (IH _ _ _ H Hi') as (vi & Evi & Hge). exists vi. split; auto. lra.
+  - injection H as ->. apply scan_false in Es. destruct Es as (-> & -> & _).
+    destruct Hi as (vi & Evi & ->). exists vi. split; auto. lra.
+Qed.
+
+Theorem mesh_support_shortcuts_partial : forall fuel (T : Pose R) vs conn shortcuts first_idx (d : V3R) idx p delta,
+  mesh_query fuel T vs conn shortcuts first_idx d = Some (idx, p) ->
+  LocalMaxGlobalS (mulTV (rot T) d) vs conn shortcuts delta ->
+  hull_set T vs p /\ forall x, hull_set T vs x -> dot x d <= dot p d + delta.
+Proof.
+  intros fuel T vs conn shortcuts first_idx d idx p delta H HL.
+  unfold mesh_query in H.
+  destruct (hill_climb fuel (mulTV (rot T) d) first_idx vs conn shortcuts) as [i| | |] eqn:Eh;
+    try discriminate.
+  destruct (nth_error vs i) as [v|] eqn:Ev; [|discriminate].
+  injection H as -> <-.
+  split; [eapply hull_set_vertex; eauto|].
+  pose proof (hill_climb_local_max _ _ _ _ _ _ _ Eh) as Hlm.
+  set (dm := mulTV (rot T) d) in *.
+  assert (Hsc : forall j vj, In j shortcuts -> nth_error vs j = Some vj -> dot dm vj <= dot dm v + @EPSILON10 R ROps).
+  { unfold hill_climb in Eh.
+    destruct (nth_error vs first_idx) as [v0|] eqn:E0; [|discriminate].
+    destruct (scan dm vs first_idx (dot dm v0) false shortcuts) as [[[b bp] m]|] eqn:Es; [|discriminate].
+    assert (Hi0 : inv dm vs first_idx (dot dm v0)) by (exists v0; auto).
+    destruct (scan_inv _ _ _ _ _ _ _ _ _ Es Hi0) as (Hib & _ & _).
+    destruct (climb_mono _ _ _ _ _ _ _ Eh Hib) as (vi & Evi & Hge).
+    assert (vi = v) by congruence. subst vi.
+    intros j vj Hin Hj. pose proof (scan_ge _ _ _ _ _ _ _ _ _ Es j vj Hin Hj). lra. }
+  specialize (HL idx v Hlm Ev Hsc).
+  intros x Hx. unfold hull_set in Hx.
+  rewrite (dot_comm x d).
+  apply (hull_linear_bound (map (transform_point T) vs) d); auto.
+  intros q Hq. apply in_map_iff in Hq. destruct Hq as (v' & <- & Hin).
+  rewrite model_transform, (dot_comm d), !image_dot.
+  specialize (HL v' Hin). fold dm. rewrite !(dot_comm dm) in HL. lra.
+Qed.
+
 (** ** termination with a closed adjacency *)
 Lemma filter_length_lt {A : Type} (f g : A -> bool) : forall (l : list A) (y : A),
   (forall x, In x l -> f x = true -> g x = true) ->
